@@ -450,7 +450,8 @@ func runEntry(prog *ssa.Program, byDir map[string]*ssa.Package, e *entry, tier s
 		// from source when no intrinsic intercepts the call; anything else still aborts as an unmodelled callee)
 		Encode: []string{"github.com/kubewharf/kubegateway", "github.com/kubewharf/apiserver-runtime",
 			"k8s.io/apimachinery/pkg/util/sets", "strings", "strconv", "unicode", "unicode/utf8", "bytes", "errors", "path", "math/bits", "sort",
-			"container/list", "container/heap"},
+			"container/list", "container/heap", "net", "net/url", "net/textproto", "encoding/base64", "encoding/hex", "hash/fnv", "hash",
+			"github.com/kubewharf/kubegateway/pkg/gateway/net"},
 		Replace: map[string]string{}, Stubs: map[string]bool{}, ZeroGlobals: map[string]bool{}, Merge: map[string]bool{}, Witnesses: 24, Debug: debug, Tier: tier,
 	}
 	budget := 600
